@@ -114,6 +114,8 @@ impl InputList {
 //@ | let ghost g_total = reader.budget();
 //@ before <<<                    indent = trailing_indent(t)?;>>>
 //@ | assert(event_idx_stack@.len() > 0 || xml_blank(t.raw())); // character data is only accepted INSIDE an element: outside the root it would be written before / after the root element (the output would not be a document); a mis-tokenised DOCTYPE tail arrives here too @C02.reader.no_text_outside_elements
+//@ before <<<                Ok(e) => >>>
+//@ | Ok(Event::CData(_)) if event_idx_stack.len() == 0 => { assert(false); } // a CDATA section is character data too: outside the root element it is not XML, and copied through it would precede / follow the root element @C02.reader.no_cdata_outside_elements
 //@ ensures
 //@ - r is Ok ==> links_ok(r->Ok_0.events@)     @@C01.reader.links_in_range
 //@ loop 1
